@@ -79,9 +79,12 @@ class GenericCallAdapter(Adapter):
     def items(cls, value, node):
         new_args, new_kwargs = cls.arguments(value)
 
-        if node is not None:
-            assert isinstance(node, ast.Call)
-            assert all(kw.arg for kw in node.keywords)
+        if (
+            node is not None
+            and isinstance(node, ast.Call)
+            and all(kw.arg for kw in node.keywords)
+            and len(new_args) <= len(node.args)
+        ):
             kw_arg_node = {kw.arg: kw.value for kw in node.keywords if kw.arg}.get
 
             def pos_arg_node(pos):
